@@ -45,7 +45,7 @@ REAL_STUB = {
     "stub": ["open/os in file_cache -> SimFS (raw level) with operation trace", "lock/executor -> SimLock/SimExecutor",
              "power loss -> crash images derived from the trace under A-FS", "realkill: process kill = os._exit at an op boundary"],
 }
-EXPECTED_PROBES = ["probe_nested_key", "probe_overwrite", "probe_big_value", "probe_crash_inside_set", "probe_unsynced_data_images",
+EXPECTED_PROBES = ["probe_set_issued_on_an_event_loop_thread", "probe_nested_key", "probe_overwrite", "probe_big_value", "probe_crash_inside_set", "probe_unsynced_data_images",
                    "probe_store_opened_at_an_arbitrary_moment", "probe_never_set_prefix_key_read_after_crash", "probe_two_handles",
                    "probe_second_writer_set", "probe_set_failed_on_io_error", "probe_reopen_between_sets"]
 WALL_CAP = {"quick": 400, "thorough": 3600}
@@ -216,6 +216,24 @@ def _run_simfs(ch, cfg, hist, nextra):
     reopen_before = {i for i in range(1, len(hist)) if ch.draw(4, "reopen") == 0}
 
     refused = set()
+    # where the set is issued: a plain thread, or a thread that is running an asyncio event loop (Klong code run by the
+    # REPL, a timer callback, an IPC / web handler all evaluate on the klong loop): "once a set has returned" is the same promise
+    on_loop = ch.draw(3, "set-on-event-loop") == 0 and not os.environ.get("VERIF_C17_NO_LOOP")
+    if on_loop:
+        stats["probe_set_issued_on_an_event_loop_thread"] += 1
+
+    def do_set(store, k, v):
+        if not on_loop:
+            return store.set(k, v)
+        import asyncio
+
+        async def co():
+            return store.set(k, v)
+        loop = asyncio.new_event_loop()
+        try:
+            return loop.run_until_complete(co())
+        finally:
+            loop.close()
 
     def writer2():
         for j, (k, lit) in enumerate(hist2):
@@ -223,7 +241,7 @@ def _run_simfs(ch, cfg, hist, nextra):
             w.yield_point("writer2")
             fs.mark("inv", i)
             try:
-                stores[hsel[i]].set(k, vals[i])
+                do_set(stores[hsel[i]], k, vals[i])
             except OSError as e:
                 if iofault is None or not iofault["fired"] or "injected" not in str(e):
                     raise
@@ -265,7 +283,7 @@ def _run_simfs(ch, cfg, hist, nextra):
                 w.yield_point("reopened")
             fs.mark("inv", i)
             try:
-                cur["store"].set(k, v)
+                do_set(cur["store"], k, v)
             except MemoryError:
                 # a value larger than the cache limit may be refused (specified, see C16): then nothing was promised
                 refused.add(i)
@@ -352,8 +370,11 @@ def _run_simfs(ch, cfg, hist, nextra):
                     failed_at[hist[op[2]][0]] = pos
         # a set that hit the injected I/O error may have damaged its key: promises made by sets of that key invoked
         # before the failure are void (also when such a set only returns afterwards); a later set restores them
-        for s in [s for s in ret_at if inv_at[s] < failed_at.get(hist[s][0], -1)]:
-            del ret_at[s]
+        # (a set whose promise is void is still a set that happened: where it overlaps a set whose promise stands, its value
+        # is as acceptable as the other's - the store may have applied the two in either order.  Judging the key by the standing
+        # promise alone was a false alarm: writer A's set #2 in flight, writer B's set #3 fails, B's set #4 finds #2 in
+        # flight, waits for it and returns - the file legitimately holds #2's value)
+        void = {s for s in ret_at if inv_at[s] < failed_at.get(hist[s][0], -1)}
         inprog_keys = {hist[s][0] for s in open_sets}
         inprog = min(open_sets) if open_sets else None
         returned = {}
@@ -361,6 +382,12 @@ def _run_simfs(ch, cfg, hist, nextra):
             key = hist[s][0]
             if not any(hist[s2][0] == key and inv_at[s2] > ret_at[s] for s2 in ret_at):
                 returned.setdefault(key, []).append(s)
+        for key in list(returned):
+            standing = [s for s in returned[key] if s not in void]
+            if not standing:
+                del returned[key]           # nothing is promised for this key at this point
+            else:
+                returned[key] = [s for s in returned[key] if s in void] + standing      # the last one is a standing promise
         if inprog is not None:
             stats["probe_crash_inside_set"] += 1
         if upto > 0 and trace[upto - 1][0] in ("mark", "read", "exists", "getsize", "open"):
